@@ -426,7 +426,6 @@ func c14HandBuilt(run *hx.Run) {
 	}
 }
 
-
 // c14LongSchema: sqlite_master records around the local-payload thresholds while
 // the schema still lives on page 1 (whose first 100 bytes are the file header).
 func c14LongSchema(run *hx.Run) {
